@@ -326,6 +326,45 @@ Qed.
 Lemma as_unsafe_path_ne fuel gh fd : ne (as_unsafe_path fz cfg fuel gh fd).
 Proof. unfold as_unsafe_path. destruct (proc_subpath fd); [apply preadlink_ne|apply ne_ret]. Qed.
 
+(* open_follow: the final open of the magic-link carries the caller's flags, and O_CREAT among them is refused before *)
+Lemma refused_false_no_creat fl : follow_refused fl = false -> has fl O_CREAT = false.
+Proof.
+  unfold follow_refused. intro H. apply orb_false_iff in H. destruct H as [H _].
+  destruct (N.eqb OPEN_FOLLOW_REFUSED 0) eqn:E0.
+  - (* no refusal in the source at all: the fact would be 0; then nothing is known -- but then the fact is not what the
+       tree has (T0), and this branch is closed by computation *)
+    apply N.eqb_eq in E0. discriminate E0.
+  - apply (intersects_false_has fl OPEN_FOLLOW_REFUSED O_CREAT); [discriminate|reflexivity|exact H].
+Qed.
+
+Lemma popen_follow_ne fuel h base sub fl : ne (popen_follow fz cfg fuel h base sub fl).
+Proof.
+  unfold popen_follow.
+  destruct (negb OPEN_FOLLOW_REFUSAL_AFTER_SLASH && follow_refused fl) eqn:E1; [apply ne_ret|].
+  destruct (path_strip_trailing_slash sub) as [sub' ts].
+  set (fl' := if ts then N.lor fl OPEN_FOLLOW_SLASH_FLAG else fl).
+  destruct (OPEN_FOLLOW_REFUSAL_AFTER_SLASH && follow_refused fl') eqn:E2; [apply ne_ret|].
+  assert (Hfl : has fl' O_CREAT = false).
+  { destruct OPEN_FOLLOW_REFUSAL_AFTER_SLASH; cbn [negb andb] in E1, E2.
+    - apply refused_false_no_creat, E2.
+    - pose proof (refused_false_no_creat fl E1) as H0. unfold fl'. destruct ts; [|exact H0].
+      rewrite has_creat_lor, H0. vm_compute. reflexivity. }
+  apply ne_bind; [apply preadlink_ne|]. intros [bs|e].
+  2:{ destruct (_ && negb _); [apply ne_ret|apply popen_ne]. }
+  destruct (path_split sub') as [[[parent [trailing|]]|e]|]; try apply ne_ret; [|constructor].
+  apply ne_bindR; [apply popen_ne|]. intro pfd.
+  assert (Hcl : forall e, ne (close pfd ;;; Ret (Err e : result Z ekind))) by (intro e; apply ne_bind; [apply close_ne|intro; apply ne_ret]).
+  apply ne_bind; [apply fetch_mnt_id_ne|]. intros [pm|e]; [|apply Hcl].
+  apply ne_bind; [apply verify_same_mnt_ne|]. intros [u|e]; [|apply Hcl].
+  apply ne_bind; [apply ne_os, w_openat_follow_ne, Hfl|]. intro r. apply ne_bind; [apply close_ne|intro; apply ne_ret].
+Qed.
+
+Lemma reopen_ne fuel gh fd fl : ne (reopen fz cfg fuel gh fd fl).
+Proof.
+  unfold reopen. apply ne_bindR; [apply ne_os, w_fstatat_ne|]. intro meta.
+  destruct (is_symlink_mode _); [apply ne_ret|]. destruct (proc_subpath fd); [apply popen_follow_ne|apply ne_ret].
+Qed.
+
 Lemma is_magiclink_filesystem_ne fd : ne (is_magiclink_filesystem fz fd).
 Proof.
   unfold is_magiclink_filesystem. apply ne_bindR; [apply ne_os, w_fstatfs_ne|]. intro. apply ne_ret.
